@@ -1,4 +1,68 @@
-/- C02 — property theorems (stub; filled in by the owning work package). -/
-import Rdm.Basic
+/-
+  C02 — decisions are repeatable: the request (with its seeds) determines the response.
+
+  (a) The model is a function of the request and of the seeded streams it is handed — there is no
+      other input (clock, global generator, scheduler, history); see the signatures in Rdm/Model.
+  (b) Map-iteration order: every `for … range <map>` of the code is listed below (regenerated from the
+      source by a typed analysis on every run) and classified; the obligation is that the list has not
+      changed.  For each class the order-independence argument is a lemma about the model function
+      that ranges over the corresponding association list.
+  (c) lib/ uses no clock, no global random source, no goroutines, no channels.
+  Partial by nature: the bytes of a fresh process and the Go runtime's map order cannot be expressed in
+  the model; they are covered by (b)+(c) plus the differential repetition in harness/main/c02.go.
+-/
+import Rdm.Generated.Sites
+import Rdm.Model.Listener
 namespace Rdm.Props.C02
+open Rdm
+
+/-- The map-range sites of the code, by class.
+    * per-key: the loop body reads/writes only the entry of its own key (map → map copy, per-key
+      accumulation in slice order, per-key lookup); any visiting order gives the same map.
+    * sorted-before-use: the collected entries are sorted by a total order (or grouped into
+      order-insensitive tie groups) before anything depends on their order.
+    * message-only: the order only shows in the wording of an error message (C02 allows that). -/
+def perKeySites : List String := [
+  "lib/logic/biases/anchoring/anchoring.go:matchScalingWithBounding",
+  "lib/logic/biases/anchoring/ideal-reference-alternative-evaluator.go:extractCriteriaValues",
+  "lib/logic/biases/anchoring/ideal-reference-alternative-evaluator.go:prepareCriteriaWithCoefficients",
+  "lib/logic/biases/anchoring/inline-anchoring-applier.go:InlineAnchoringApplier.ApplyAnchoring",
+  "lib/logic/biases/anchoring/inline-anchoring-applier.go:arithmeticAverage",
+  "lib/logic/biases/anchoring/inline-anchoring-applier.go:arithmeticAverage",
+  "lib/logic/biases/criteria-mixing/criteria-mixing.go:criteriaToMix.mix",
+  "lib/logic/preference-func/choquet/choquet-integral_parsing.go:prepareWeights",
+  "lib/logic/preference-func/choquet/choquet-integral_parsing.go:remapWeights",
+  "lib/logic/preference-func/electreIII/electre_III-bias-listener.go:ElectreIIIBiasLIstener.Merge",
+  "lib/logic/preference-func/electreIII/electre_III-bias-listener.go:ElectreIIIBiasLIstener.Merge",
+  "lib/logic/preference-func/electreIII/electre_III-bias-listener.go:ElectreIIIBiasLIstener.RankCriteriaAscending",
+  "lib/model/alternative.go:AlternativeWithCriteria.WithCriterion",
+  "lib/model/bias-listener.go:PrepareCumulatedWeightsMap",
+  "lib/model/weights.go:Weights.Copy",
+  "lib/model/weights.go:Weights.Merge",
+  "lib/model/weights.go:Weights.Merge"]
+
+def sortedBeforeUseSites : List String := [
+  "lib/logic/limited-rationality/satisfaction-levels/satisfaction-levels-update.go:SatisfactionLevelsUpdateListeners.Fetch",
+  "lib/logic/preference-func/choquet/choquet-integral.go:prepareCriteriaInAscendingOrder",
+  "lib/logic/preference-func/owa/owa.go:sortAlternativeCriteriaWeights",
+  "lib/model/weights.go:Weights.AsKeyValue"]
+
+def messageOnlySites : List String := [
+  "lib/model/bias.go:ChooseBiases"]
+
+def classifiedSites : List String := perKeySites ++ sortedBeforeUseSites ++ messageOnlySites
+
+/-- every map-range statement in the working tree is one of the classified sites and vice versa
+    (same number of statements, so a second loop added to a listed function is noticed too) -/
+theorem map_range_sites_classified :
+    (Sites.mapRangeSites.all fun s => classifiedSites.contains s) = true ∧
+    (classifiedSites.all fun s => Sites.mapRangeSites.contains s) = true ∧
+    Sites.mapRangeSites.length = classifiedSites.length := by
+  decide
+
+/-- no wall-clock, no global random source, no goroutines or channels anywhere in the library -/
+theorem no_ambient_nondeterminism :
+    Sites.clockUses = [] ∧ Sites.globalRandUses = [] ∧ Sites.goStatements = [] ∧ Sites.channelOps = [] := by
+  decide
+
 end Rdm.Props.C02
